@@ -21,8 +21,12 @@ CLAIMED = {
  "C04": ("Theorems over the Gallina transcription of the sfnt writer (calcChecksum, getSearchRange, SFNTWriter.__setitem__/close/"
          "_calcMasterChecksum): checksum additivity over aligned blocks and padding invariance, search fields equal the OpenType definition "
          "(largest power of two <= numTables), every table lies 4-aligned/in bounds/non-overlapping with exactly its bytes where the directory "
-         "says (layout_sound), and a file with one head table checksums to 0xB1B0AFBA (master_checksum). Tied to the code by byte-exact "
-         "correspondence on random table lists; WOFF/WOFF2/TTC containers and all derived fields (bboxes, maxp, hhea, hmtx, loca) are checked "
+         "says (layout_sound), and a file with one head table checksums to 0xB1B0AFBA (master_checksum). WOFF2's transformed glyf table: the "
+         "point triplets of a simple glyph (_encodeTriplets / _decodeTriplets, all 128 delta classes with their bit packing) are modelled; for "
+         "every point list the encoder accepts, decoding returns exactly the points and leaves what follows in both streams untouched, and the "
+         "encoder accepts a step exactly when both components fit 16 bits (bit operations reduced to arithmetic by small finite sweeps, the six "
+         "classes by linear arithmetic). Tied to the code by byte-exact "
+         "correspondence on random table lists and on point lists at every class boundary (plus damaged streams for the decoder); WOFF/WOFF2/TTC containers and all derived fields (bboxes, maxp, hhea, hmtx, loca) are checked "
          "on the implementation by an independent spec reader over corpus and generated boundary fonts (testing, reported as such).",
          "Rocq proof over a hand-written writer model + byte-exact correspondence + independent-reader sweep"),
  "C20": ("Theorems over the Gallina transcription of SFNTReader.__init__/readTTCHeader/DirectoryEntry.fromFile/loadData: for EVERY byte "
